@@ -7,6 +7,7 @@ import (
 	"sort"
 	"strings"
 
+	"golang.org/x/tools/go/packages"
 	"golang.org/x/tools/go/ssa"
 
 	"jsverif/internal/core"
@@ -172,15 +173,58 @@ func c05walk(c *core.Ctx) {
 		cc, ok := cases[bt]
 		c.Check(ok && reachesCollect(cc), R, "case:"+bt, c.P.Pos(d.Decl.Pos()), "collector descends into the children of "+bt, "the collector has no recursive case for this node kind: type names used below such a node are missing from UsedUserTypes()")
 	}
-	n := 0
-	for _, s := range d.Decl.Body.List {
-		if es, ok := s.(*ast.ExprStmt); ok {
-			if call, ok := es.X.(*ast.CallExpr); ok && strings.HasPrefix(core.ExprStr(call.Fun), "c.collectUserTypesFrom") {
-				n++
+	// constraint kinds read on the unconditional path of collect(): in its top-level statements
+	// (for an `if`, in the init and the condition only) and in the helpers those statements call
+	read := map[string]bool{}
+	var refs func(pk *packages.Package, n ast.Node, depth int)
+	refs = func(pk *packages.Package, n ast.Node, depth int) {
+		if n == nil {
+			return
+		}
+		ast.Inspect(n, func(m ast.Node) bool {
+			switch x := m.(type) {
+			case *ast.SelectorExpr:
+				if strings.HasSuffix(x.Sel.Name, "ConstraintType") {
+					read[x.Sel.Name] = true
+				}
+			case *ast.Ident:
+				if strings.HasSuffix(x.Name, "ConstraintType") {
+					read[x.Name] = true
+				}
+			case *ast.CallExpr:
+				if depth < 2 {
+					if f, ok := core.Callee(pk, x).(*types.Func); ok && f.Pkg() != nil && core.InScope(f.Pkg().Path()) && f.Name() != "collect" {
+						if hd := c.P.FindDecl(core.Rel(f.FullName())); hd != nil && hd.Decl.Body != nil {
+							refs(hd.Pkg, hd.Decl.Body, depth+1)
+						}
+					}
+				}
 			}
+			return true
+		})
+	}
+	for _, st := range d.Decl.Body.List {
+		switch x := st.(type) {
+		case *ast.TypeSwitchStmt, *ast.SwitchStmt:
+		case *ast.IfStmt:
+			if x.Init != nil {
+				refs(d.Pkg, x.Init, 0)
+			}
+			refs(d.Pkg, x.Cond, 0)
+		case *ast.RangeStmt:
+			refs(d.Pkg, x.X, 0)
+		case *ast.ForStmt:
+		default:
+			refs(d.Pkg, st, 0)
 		}
 	}
-	c.Check(n >= 3, R, "constraint-collectors", c.P.Pos(d.Decl.Pos()), core.F("collect() runs %d constraint collectors unconditionally for every node", n), "one of the unconditional constraint collectors (types list / type / allOf) was removed or made conditional")
+	var missing []string
+	for _, k := range []string{"TypesListConstraintType", "TypeConstraintType", "AllOfConstraintType"} {
+		if !read[k] {
+			missing = append(missing, k)
+		}
+	}
+	c.Check(len(missing) == 0, R, "constraint-collectors", c.P.Pos(d.Decl.Pos()), "collect() reads the types-list, type and allOf constraints unconditionally for every node", "not read on the unconditional path of collect(): "+strings.Join(missing, ", ")+" - the collector for it was removed or made conditional")
 }
 
 func c05dedupe(c *core.Ctx) {
